@@ -77,6 +77,7 @@ Proof.
   - exact R4.
   - split; intros name; [rewrite R6 | rewrite R5]; reflexivity.
   - rewrite R7. cbn. rewrite app_nil_r. reflexivity.
+  - split; [reflexivity|]. rewrite R6. constructor.
   - exists n, stmts, toks, toks. split; [exact Hp0|]. split; [exact Ht|].
     rewrite R10. split; [reflexivity|]. split; [reflexivity | exact HL].
 Qed.
